@@ -45,6 +45,9 @@ func init() {
   list boolean { key k; leaf k { type boolean; } leaf v { type int32; } }
   list enum { key k; leaf k { type enumeration { enum e0; enum e1; enum e7 { value 7; } enum e8; enum e20 { value 20; } } } leaf v { type int32; } }
   list identityref { key k; leaf k { type identityref { base b; } } leaf v { type int32; } }
+  list binary { key k; leaf k { type binary; } leaf v { type int32; } }
+  list bits { key k; leaf k { type bits { bit a; bit b; bit c; } } leaf v { type int32; } }
+  list union { key k; leaf k { type union { type int32; type string; } } leaf v { type int32; } }
   list pair { key "k k2"; leaf k { type string; } leaf k2 { type int32; } leaf v { type int32; } }
 }`
 }
@@ -65,11 +68,14 @@ var c17LookupKeys = map[string][]string{
 	"boolean":     {"false", "true"},
 	"enum":        {"e0", "e1", "e7", "e8", "e20"},
 	"identityref": {"i0", "i1", "i2", "i3", "i4"},
+	"binary":      {"AQID", "/w==", "AA==", "AQ==", "AQIDBA=="},
+	"bits":        {"a", "b", "a b", "c", "a b c"},
+	"union":       {"1", "a", "-5", "b", "10"},
 	// compound: first components collide on purpose
 	"pair": {"a,1", "a,2", "b,1", "b,2", "a,-1"},
 }
 
-var c17LookupTypes = []string{"string", "int8", "int16", "int32", "int64", "uint8", "uint16", "uint32", "uint64", "decimal64", "decimal64-9", "boolean", "enum", "identityref", "pair"}
+var c17LookupTypes = []string{"string", "int8", "int16", "int32", "int64", "uint8", "uint16", "uint32", "uint64", "decimal64", "decimal64-9", "boolean", "enum", "identityref", "binary", "bits", "union", "pair"}
 
 // implementations: the harness' reference node, the library's two reflection
 // nodes over map[string]interface{} trees with map- and slice-backed lists,
@@ -86,7 +92,11 @@ func c17LookupMax(tier string) int {
 func c17LookupCases(tier string, emit func(interface{})) {
 	for _, impl := range c17LookupImpls {
 		for _, t := range c17LookupTypes {
-			if strings.Contains(impl, "struct") && (t == "enum" || t == "identityref" || t == "pair") {
+			if strings.Contains(impl, "struct") && (t == "enum" || t == "identityref" || t == "pair" || t == "binary" || t == "bits" || t == "union") {
+				continue
+			}
+			if strings.HasSuffix(impl, "-map") && t == "binary" {
+				// octets ([]byte) cannot be the key of a Go map
 				continue
 			}
 			if strings.HasSuffix(impl, "-map") && t == "pair" {
